@@ -16,6 +16,11 @@ namespace WR.C15
 def rangeFold {σ ε : Type} (body : σ → ε → σ) (init : σ) (order : List ε) : σ :=
   order.foldl body init
 
+/-- two lists related element by element (pages of two runs, each with its own iteration order) -/
+inductive Forall₂ {α β : Type} (R : α → β → Prop) : List α → List β → Prop
+  | nil : Forall₂ R [] []
+  | cons {a b as bs} : R a b → Forall₂ R as bs → Forall₂ R (a :: as) (b :: bs)
+
 /-! ## Go maps as association lists: a write conses, a read takes the first binding. -/
 
 abbrev GoMap (κ ν : Type) := List (κ × ν)
